@@ -225,9 +225,9 @@ fn one(ctx: &Ctx, rep: &mut Report, id: usize, cfg: Cfg, k: usize) {
                     continue;
                 }
                 // Ok implies verifies (library and reference)
-                let lv = verify_one(&t, &st, &proof, VerifyAction::VerifyOnly).is_ok();
                 let rst = ref_statement_of(&prm, a.commitments.len(), &a.commitments, &a.promises);
-                let rv = Parts::of(&proof).to_ref().map(|rp| refbp::ref_verify(&t, &rst, &rp)).unwrap_or(false);
+                let (lv, rv) = verdict_pair(&t, &st, &proof, &rst, &Parts::of(&proof), VerifyAction::VerifyOnly);
+                let lv = lv.unwrap_or(false);
                 rep.count("emitted_proofs_verified", 1);
                 if !lv || !rv {
                     rep.violation(&format!("C06 emitted-proof-does-not-verify [{class}]"), &format!("`{}`: emitted proof verifies: library {lv}, reference {rv}", a.name), replay);
